@@ -75,11 +75,11 @@ func chainSession(g *gen.G, idx int) Sess {
 type mergeVector struct {
 	Base tv.T   `json:"base"`
 	Hist []tv.T `json:"hist"`
-	Dst tv.T   `json:"dst"`
-	Src tv.T   `json:"src"`
-	OK  bool   `json:"ok"`
-	V   tv.T   `json:"v"`
-	Err string `json:"err"`
+	Dst  tv.T   `json:"dst"`
+	Src  tv.T   `json:"src"`
+	OK   bool   `json:"ok"`
+	V    tv.T   `json:"v"`
+	Err  string `json:"err"`
 }
 
 // replayMerge performs the transition on the real library: a fresh Parser,
